@@ -114,3 +114,107 @@ Proof.
   exists r. exact E.
 Qed.
 End T.
+
+(* ================================================================================================
+   Termination for ANY table — values may mention placeholders, cyclically or not — when placeholders
+   are not nested (no body, in the input or in a value, holds a prefix; so defaults are plain text):
+   resolution ends with a string or with a cycle report, never out of fuel, with an explicit bound.
+   The bodies that can ever be met form a finite set U (those of the input and of the values); every
+   expansion of a value puts one more of them on the visited stack, and a body already there is a
+   reported cycle.  Measure: (number of bodies of U not yet visited, length of the text). *)
+Lemma toks_eqb_refl a : toks_eqb a a = true.
+Proof. induction a as [|t r IH]; [reflexivity|]. simpl. rewrite IH, andb_true_r. destruct t; simpl; auto using Nat.eqb_refl. Qed.
+
+Lemma split_sep_suffix_cpre s k d : split_sep s = Some (k, d) -> cpre s = 0 -> cpre d = 0.
+Proof. intros H C. apply split_sep_cpre in H. lia. Qed.
+
+Section U.
+Variable tbl : toks -> option toks.
+Variable U : list toks.        (* the placeholder bodies of the input and of the values *)
+Variable L : nat.              (* bound on the length of every value *)
+Notation resolve := (resolve tbl).
+
+(* the top-level scan of s meets only unnested bodies, all of them in U *)
+Inductive scan_ok : toks -> Prop :=
+| so_none s : split_pre s = None -> scan_ok s
+| so_unterm s b a : split_pre s = Some (b, a) -> find_end 0 a = None -> scan_ok s
+| so_ph s before after body rest :
+    split_pre s = Some (before, after) -> find_end 0 after = Some (body, rest) ->
+    In body U -> cpre body = 0 -> scan_ok rest -> scan_ok s.
+
+Definition unnested_tbl : Prop := forall k v, tbl k = Some v -> scan_ok v /\ length v <= L.
+
+Definition unvisited (seen : list toks) : nat :=
+  length (filter (fun u => negb (existsb (toks_eqb u) seen)) U).
+
+Lemma filter_length_le {A} (f g : A -> bool) l :
+  (forall x, g x = true -> f x = true) -> length (filter g l) <= length (filter f l).
+Proof.
+  intros H. induction l as [|x r IH]; [simpl; lia|]. simpl.
+  destruct (g x) eqn:G; [rewrite (H x G); simpl; lia|]. destruct (f x); simpl; lia.
+Qed.
+
+Lemma filter_length_lt {A} (f g : A -> bool) l x :
+  (forall y, g y = true -> f y = true) -> In x l -> f x = true -> g x = false ->
+  length (filter g l) < length (filter f l).
+Proof.
+  intros H. induction l as [|y r IH]; intros Hin Fx Gx; [contradiction|]. simpl.
+  destruct Hin as [->|Hin].
+  - rewrite Fx, Gx. simpl. pose proof (filter_length_le f g r H). lia.
+  - specialize (IH Hin Fx Gx). destruct (g y) eqn:G; [rewrite (H y G); simpl; lia|]. destruct (f y); simpl; lia.
+Qed.
+
+Lemma unvisited_push body seen :
+  In body U -> existsb (toks_eqb body) seen = false -> unvisited (body :: seen) < unvisited seen.
+Proof.
+  intros Hin NS. unfold unvisited. apply (filter_length_lt _ _ U body); auto.
+  - intros y Hy. apply negb_true_iff in Hy. apply negb_true_iff. simpl in Hy. now apply orb_false_elim in Hy as [_ ?].
+  - now rewrite NS.
+  - simpl. now rewrite toks_eqb_refl.
+Qed.
+
+Theorem unnested_terminates : unnested_tbl -> forall n seen s,
+  scan_ok s -> length s <= L -> unvisited seen * S L + length s < n ->
+  resolve n seen s <> ROut.
+Proof.
+  intros Tb. induction n as [n IH] using lt_wf_ind. intros seen s Sc Ls Hn.
+  destruct n as [|n]; [lia|]. rewrite resolve_S. unfold Resolver.step.
+  destruct (split_pre s) as [[before after]|] eqn:SP; [|discriminate].
+  destruct (find_end 0 after) as [[body rest]|] eqn:FE; [|discriminate].
+  pose proof (split_pre_length _ _ _ SP) as L1. pose proof (find_end_length _ _ _ _ FE) as L2.
+  inversion Sc as [s0 E|s0 b a E1 E2|s0 before0 after0 body0 rest0 E1 E2 InU Cb Sr]; subst; try congruence.
+  rewrite SP in E1. injection E1 as <- <-. rewrite FE in E2. injection E2 as <- <-.
+  destruct (existsb (toks_eqb body) seen) eqn:NS; [discriminate|].
+  destruct n as [|n]; [lia|].
+  rewrite (resolve_noprefix tbl n _ body Cb). cbn [bind].
+  (* the text after the placeholder *)
+  assert (Hrest : resolve (S n) seen rest <> ROut) by (apply IH; [lia|exact Sr|lia|lia]).
+  (* a looked-up value: one more body is on the stack *)
+  assert (Hval : forall pv, scan_ok pv -> length pv <= L -> resolve (S n) (body :: seen) pv <> ROut).
+  { intros pv Sp Lp. apply IH; [lia|exact Sp|exact Lp|].
+    pose proof (unvisited_push body seen InU NS) as Lt.
+    assert (unvisited (body :: seen) * S L + S L <= unvisited seen * S L) by nia. lia. }
+  unfold Resolver.lookup_ph.
+  assert (Fin : forall (x : res) (f : toks -> res), x <> ROut -> (forall v, f v <> ROut) -> bind x f <> ROut).
+  { intros x f Hx Hf. destruct x; cbn [bind]; auto. }
+  assert (Tail : forall v, bind (resolve (S n) seen rest) (fun r0 => ROk (before ++ v ++ r0)) <> ROut).
+  { intros v. apply Fin; [exact Hrest|discriminate]. }
+  destruct (tbl body) as [pv|] eqn:T.
+  - destruct (Tb _ _ T) as [Sp Lp]. apply Fin; [now apply Hval|exact Tail].
+  - destruct (split_sep body) as [[k d]|] eqn:SS.
+    + destruct (tbl k) as [pv|] eqn:Tk.
+      * destruct (Tb _ _ Tk) as [Sp Lp]. apply Fin; [now apply Hval|exact Tail].
+      * rewrite (resolve_noprefix tbl n _ d (split_sep_suffix_cpre _ _ _ SS Cb)). cbn [bind]. apply Tail.
+    + apply Fin; [exact Hrest|discriminate].
+Qed.
+
+Corollary unnested_terminates_top : unnested_tbl -> forall s, scan_ok s -> length s <= L ->
+  resolve_top tbl (S (length U * S L + length s)) s <> ROut.
+Proof.
+  intros Tb s Sc Ls. apply unnested_terminates; auto.
+  assert (unvisited [] <= length U).
+  { unfold unvisited. generalize (fun u : toks => negb (existsb (toks_eqb u) [])) as g. intros g.
+    induction U as [|x r IHr]; [simpl; lia|]. simpl. destruct (g x); simpl; lia. }
+  assert (unvisited [] * S L <= length U * S L) by nia. lia.
+Qed.
+End U.
